@@ -5,6 +5,10 @@
 // (int, string, fp.Seq[V], fp.Option[V], *V, fp.TupleN[V,...], hlist.Cons[V,V], map[K]V, ...).
 // Every value exists twice: as a *model* (type M, a plain tree the reference oracle works on)
 // and as the library value that Build makes from the model (freshly allocated on every call).
+// Models can carry storage identities (M.Arena / M.Cell): library values built from such
+// models by ONE Ctx share backing arrays / are the same pointer or map, which is how a pool
+// gets values that are views of one another (AliasVariant, SameStorage, mutants of pinned
+// values). The reference (NatEq, RefEq, RefCmp) never looks at storage: it compares by value.
 // Nothing in this package calls eq, hash or ord: the reference is plain Go over the model.
 package dyn
 
@@ -15,6 +19,7 @@ import (
 	"strconv"
 	"strings"
 	"time"
+	"unsafe"
 
 	"github.com/csgura/fp"
 	"github.com/csgura/fp/hlist"
@@ -47,8 +52,26 @@ type integer interface {
 }
 
 func intKind[T integer](name string, lo, hi T) *LeafKind {
+	// edges: the values around the powers of two that bound the narrower widths, the float
+	// mantissas (2^24, 2^53) and the sign bits, as far as they fit T (and their negations) -
+	// an instance that compares through a narrower / floating / subtracting shortcut goes
+	// wrong exactly there
+	var edges []T
+	for _, k := range []uint{7, 8, 15, 16, 24, 31, 32, 53, 63} {
+		for _, d := range []uint64{^uint64(0), 0, 1} {
+			u := uint64(1)<<k + d
+			t := T(u)
+			if t < 0 || uint64(t) != u {
+				continue
+			}
+			edges = append(edges, t)
+			if lo < 0 {
+				edges = append(edges, -t, -t-1)
+			}
+		}
+	}
 	gen := func(r *rand.Rand) any {
-		switch r.IntN(10) {
+		switch r.IntN(12) {
 		case 0:
 			return lo
 		case 1:
@@ -59,6 +82,8 @@ func intKind[T integer](name string, lo, hi T) *LeafKind {
 			return hi - 1
 		case 4:
 			return T(r.Uint64())
+		case 5, 6:
+			return edges[r.IntN(len(edges))]
 		}
 		if lo < 0 {
 			return T(r.IntN(7) - 3)
@@ -85,9 +110,16 @@ func intKind[T integer](name string, lo, hi T) *LeafKind {
 	}
 }
 
-func floatKind[T ~float32 | ~float64](name string, maxv, tiny T) *LeafKind {
+func floatKind[T ~float32 | ~float64](name string, maxv, tiny, minNormal, eps T) *LeafKind {
 	negZero := T(math.Copysign(0, -1))
-	vals := []T{0, negZero, 0, negZero, 1, -1, 0.5, 1.5, 2, -2.5, T(math.Inf(1)), T(math.Inf(-1)), maxv, -maxv, tiny, 1e10, 3}
+	pointOne, pointTwo := T(0.1), T(0.2)
+	vals := []T{0, negZero, 0, negZero, 1, -1, 0.5, -0.5, 1.5, -1.5, 2, -2.5, 3,
+		T(math.Inf(1)), T(math.Inf(-1)), maxv, -maxv,
+		tiny, -tiny, 2 * tiny, minNormal, -minNormal, minNormal - tiny, // subnormals around the smallest normal number
+		1 + eps, 1 - eps/2, // the neighbours of 1
+		pointOne + pointTwo, 0.3, // differ in the last bit
+		1e10, 1 << 24, 1<<24 + 2, 1 << 53, 1<<53 + 2, 1 << 63, -(1 << 63), 1 << 64, // beyond the integer ranges
+	}
 	gen := func(r *rand.Rand) any { return vals[r.IntN(len(vals))] }
 	return &LeafKind{
 		Name: name, Gen: gen, Num: true,
@@ -104,7 +136,19 @@ func floatKind[T ~float32 | ~float64](name string, maxv, tiny T) *LeafKind {
 	}
 }
 
-var strVals = []string{"", "", "a", "a", "A", "ab", "aB", "Ab", "abc", "abd", "b", "B", "ä", "a\x00", "a\x00b", "ba", "zzzzzzzzzzzzzzzzzzzzzzzzzzzzzzzzzzzzzzzz", "zzzzzzzzzzzzzzzzzzzzzzzzzzzzzzzzzzzzzzzy"}
+// strRep is sliced below: Go substrings share the bytes of the string they are cut from, so
+// strRep[0:3], strRep[3:6] (equal content at another offset) and strRep[0:6] (same start,
+// longer) are the string counterpart of aliased slices.
+const strRep = "abcabcabc\x00abc"
+
+var strVals = []string{"", "", "a", "a", "A", "ab", "aB", "Ab", "abc", "abd", "b", "B", "ä", "a\x00", "a\x00b", "ba",
+	"zzzzzzzzzzzzzzzzzzzzzzzzzzzzzzzzzzzzzzzz", "zzzzzzzzzzzzzzzzzzzzzzzzzzzzzzzzzzzzzzzy", "zzzzzzzzzzzzzzzzzzzzyzzzzzzzzzzzzzzzzzzz", "yzzzzzzzzzzzzzzzzzzzzzzzzzzzzzzzzzzzzzzz",
+	"\x00", "\x00\x00", "\x00a", // NUL is an ordinary byte
+	"\xff", "a\xff", "\xc3", "\xc3\x28", "\xed\xa0\x80", // invalid UTF-8: lone byte, truncated "ä", bad continuation, surrogate
+	"e\u0301", "\u00e9", "\u00c4", // decomposed / precomposed é are different strings; Ä lowers to ä
+	"aaaaaaaa", "aaaaaaab", "aaaaaaaaa", "aaaaaaaaaaaaaaaa", "aaaaaaaaaaaaaaab", "baaaaaaaaaaaaaaa", // word-sized and double-word-sized
+	strRep[0:3], strRep[3:6], strRep[0:6], strRep[6:9], strRep[10:13], strRep[0:9], strRep[9:10],
+}
 
 func genString(r *rand.Rand) string {
 	if r.IntN(4) == 0 {
@@ -157,8 +201,8 @@ func init() {
 	reg(intKind[uint32]("uint32", 0, math.MaxUint32))
 	reg(intKind[uint64]("uint64", 0, math.MaxUint64))
 	reg(intKind[uintptr]("uintptr", 0, math.MaxUint))
-	reg(floatKind[float32]("float32", math.MaxFloat32, math.SmallestNonzeroFloat32))
-	reg(floatKind[float64]("float64", math.MaxFloat64, math.SmallestNonzeroFloat64))
+	reg(floatKind[float32]("float32", math.MaxFloat32, math.SmallestNonzeroFloat32, 0x1p-126, 0x1p-23))
+	reg(floatKind[float64]("float64", math.MaxFloat64, math.SmallestNonzeroFloat64, 0x1p-1022, 0x1p-52))
 	reg(&LeafKind{
 		Name: "string",
 		Gen:  func(r *rand.Rand) any { return genString(r) },
@@ -172,7 +216,9 @@ func init() {
 	})
 	reg(&LeafKind{
 		Name: "Pt",
-		Gen:  func(r *rand.Rand) any { return Pt{r.IntN(3), genString(r)} },
+		Gen: func(r *rand.Rand) any {
+			return Pt{[]int{0, 1, 2, 0, 1, -1, math.MaxInt, math.MinInt}[r.IntN(8)], genString(r)}
+		},
 		Mut: func(r *rand.Rand, v any) any {
 			p := v.(Pt)
 			if r.IntN(2) == 0 {
@@ -252,16 +298,45 @@ func (s *Shape) String() string {
 // ---- models ---------------------------------------------------------------------------
 
 // M is the model of one value. Which fields are used depends on the shape.
+//
+// Models are immutable once they are in a pool; two pool entries may share sub-models.
 type M struct {
 	Leaf any    // KLeaf value; KPtrLeaf target
 	Str  string // KBytes content
-	Ns   int64  // KTime instant
+	Sec  int64  // KTime instant: seconds since the Unix epoch ...
+	Ns   int64  // ... and nanoseconds within that second, 0 <= Ns < 1e9
 	Nil  bool   // KOption none, KPtr / KPtrLeaf nil
 	Kids []*M   // elements / components / map values / option-ptr target
 	Keys []any  // map keys, parallel to Kids
-	Repr int    // representation variant (nil vs empty, spare capacity, zone, insertion order)
+	Repr int    // representation variant (nil vs empty, spare capacity, zone, monotonic reading, insertion order)
+
+	// Storage identity ("pins"). They say nothing about the value the model denotes - the
+	// reference never looks at them - only which library values share memory when several
+	// models are built by one Ctx.
+	//   Arena/Off (KSeq, KSlice, KBytes): the value is the window Off .. Off+len of the arena's
+	//     backing array; invariant: Kids[i] is (a structural copy of) Arena.Elems[Off+i], Str is
+	//     Arena.Str[Off:Off+len(Str)].
+	//   Cell (non-nil KPtr / KPtrLeaf, KGoMap, KFpMap): all models with the same cell are
+	//     structural copies of one another and are built as the very same pointer / map.
+	// Whatever changes a model (mutateIn, Rerepr) drops the pins of every node it touches.
+	Arena *Arena
+	Off   int
+	Cell  *Cell
 }
 
+// Arena is one backing array.
+type Arena struct {
+	ID    uint32 // label for witnesses (drawn from the case's PRNG)
+	Elems []*M   // KSeq / KSlice
+	Str   string // KBytes
+}
+
+// Cell is the identity of one pointer target / Go map / fp.Map value.
+type Cell struct{ ID uint32 }
+
+func (m *M) unpin() { m.Arena, m.Off, m.Cell = nil, 0, nil }
+
+// clone is a deep copy that keeps the pins (the copy denotes the same value in the same storage).
 func (m *M) clone() *M {
 	c := *m
 	if m.Kids != nil {
@@ -279,7 +354,94 @@ func (m *M) clone() *M {
 // Clone is a deep copy.
 func (m *M) Clone() *M { return m.clone() }
 
-var zones = []*time.Location{time.UTC, time.FixedZone("plus9", 9*3600), time.FixedZone("minus5", -5*3600), time.FixedZone("plus0530", 5*3600+1800)}
+// sameModel: structurally identical (the self-check of the pin invariants).
+func sameModel(a, b *M) bool {
+	if a == b {
+		return true
+	}
+	if a.Leaf != b.Leaf || a.Str != b.Str || a.Sec != b.Sec || a.Ns != b.Ns || a.Nil != b.Nil || len(a.Kids) != len(b.Kids) || len(a.Keys) != len(b.Keys) {
+		return false
+	}
+	for i := range a.Keys {
+		if a.Keys[i] != b.Keys[i] {
+			return false
+		}
+	}
+	for i := range a.Kids {
+		if !sameModel(a.Kids[i], b.Kids[i]) {
+			return false
+		}
+	}
+	return true
+}
+
+var zones = []*time.Location{time.UTC, time.FixedZone("plus9", 9*3600), time.FixedZone("minus5", -5*3600), time.FixedZone("plus0530", 5*3600+1800), time.Local}
+
+// ReprRange is the number of representation variants; divisible by 2, 3, 4 and 5 so that the
+// residues used below are uniform, and Repr%5 (zone) is independent of (Repr/5)%2 (monotonic).
+const ReprRange = 60
+
+func timeZone(m *M) *time.Location { return zones[m.Repr%len(zones)] }
+
+// A time.Time with a monotonic clock reading cannot be made without reading the clock, which a
+// case must not do. The readings are therefore written into the (stable since Go 1.9) layout
+//
+//	wall = 1<<63 | seconds since 1885 (33 bits) | nanoseconds (30 bits); ext = monotonic ns
+//
+// directly; every forged value has the reading "instant - monoBase", i.e. they are the values
+// t0.Add(d) of one process whose clock was read once at monoBase. init verifies the layout
+// against the time package and switches the variant off if it does not hold.
+type timeRepr struct {
+	wall uint64
+	ext  int64
+	loc  *time.Location
+}
+
+const (
+	secs1885to1970 = 2682288000
+	monoBaseSec    = 1577836800 // 2020-01-01
+)
+
+var monoOK bool
+
+func inMonoRange(sec int64) bool { return sec >= -secs1885to1970 && sec+secs1885to1970 < 1<<33 }
+
+// TimeMono reports whether Build gives the time a monotonic clock reading.
+func TimeMono(m *M) bool { return monoOK && (m.Repr/5)%2 == 1 && inMonoRange(m.Sec) }
+
+func forgeMono(sec, ns int64, loc *time.Location) time.Time {
+	t := time.Unix(sec, ns).In(loc)
+	p := (*timeRepr)(unsafe.Pointer(&t))
+	p.wall = 1<<63 | uint64(sec+secs1885to1970)<<30 | uint64(ns)
+	p.ext = (sec-monoBaseSec)*1_000_000_000 + ns
+	return t
+}
+
+func init() {
+	if unsafe.Sizeof(time.Time{}) != unsafe.Sizeof(timeRepr{}) {
+		return
+	}
+	ok := true
+	for _, sec := range []int64{-secs1885to1970, -1, 0, 1_700_000_000, 1<<33 - secs1885to1970 - 1} {
+		for _, ns := range []int64{0, 1, 999_999_998} {
+			f, g, plain := forgeMono(sec, ns, time.UTC), forgeMono(sec, ns+1, zones[1]), time.Unix(sec, ns).UTC()
+			ok = ok && f.Equal(plain) && plain.Equal(f) && f.Compare(plain) == 0 && f.Unix() == sec && int64(f.Nanosecond()) == ns &&
+				f.Round(0) == plain && strings.Contains(f.String(), " m=") && !strings.Contains(plain.String(), " m=") &&
+				f.Before(g) && g.After(f) && g.Sub(f) == 1 && g.Compare(f) == 1 && g.After(plain) && !g.Equal(f)
+		}
+	}
+	monoOK = ok
+}
+
+func buildTime(m *M) time.Time {
+	if TimeMono(m) {
+		return forgeMono(m.Sec, m.Ns, timeZone(m))
+	}
+	return time.Unix(m.Sec, m.Ns).In(timeZone(m))
+}
+
+// MonoAvailable: the monotonic-reading variant passed its self-test.
+func MonoAvailable() bool { return monoOK }
 
 type keyHasher[K comparable] struct{ h func(K) uint32 }
 
@@ -296,8 +458,45 @@ var strKeyHasher fp.Hashable[string] = keyHasher[string]{func(s string) uint32 {
 	return h
 }}
 
-func buildSlice(s *Shape, m *M) []V {
+// Ctx builds library values; models that share an Arena / Cell and are built by the same Ctx
+// share the backing array / are the same pointer or map.
+type Ctx struct {
+	arenas map[*Arena][]V
+	bytes  map[*Arena][]byte
+	cells  map[*Cell]V
+	from   map[*Cell]*M
+}
+
+func NewCtx() *Ctx { return &Ctx{} }
+
+func harnessBug(what string, s *Shape, m *M) {
+	panic("dyn: HARNESS BUG (not a library defect): " + what + ": " + s.String() + " " + Show(s, m))
+}
+
+func (c *Ctx) buildSlice(s *Shape, m *M) []V {
 	n := len(m.Kids)
+	if a := m.Arena; a != nil {
+		arr, ok := c.arenas[a]
+		if !ok {
+			arr = make([]V, len(a.Elems))
+			for p, e := range a.Elems {
+				arr[p] = c.Build(s.Kids[0], e)
+			}
+			if c.arenas == nil {
+				c.arenas = map[*Arena][]V{}
+			}
+			c.arenas[a] = arr
+		}
+		if m.Off < 0 || m.Off+n > len(a.Elems) {
+			harnessBug("window outside its arena", s, m)
+		}
+		for i, k := range m.Kids {
+			if !sameModel(k, a.Elems[m.Off+i]) {
+				harnessBug("a pinned sequence differs from its arena", s, m)
+			}
+		}
+		return arr[m.Off : m.Off+n]
+	}
 	var out []V
 	switch {
 	case n == 0 && m.Repr%3 == 0:
@@ -312,12 +511,12 @@ func buildSlice(s *Shape, m *M) []V {
 		out = make([]V, n, n+3)
 	}
 	for i, k := range m.Kids {
-		out[i] = Build(s.Kids[0], k)
+		out[i] = c.Build(s.Kids[0], k)
 	}
 	return out
 }
 
-func buildFpMap[K comparable](h fp.Hashable[K], extra K, s *Shape, m *M) V {
+func buildFpMap[K comparable](c *Ctx, h fp.Hashable[K], extra K, s *Shape, m *M) V {
 	if len(m.Kids) == 0 && m.Repr%3 == 0 {
 		return fp.Map[K, V]{} // zero value: an empty map without a hasher
 	}
@@ -327,7 +526,7 @@ func buildFpMap[K comparable](h fp.Hashable[K], extra K, s *Shape, m *M) V {
 		if m.Repr%2 == 1 {
 			j = len(m.Kids) - 1 - i
 		}
-		items[i] = fp.Tuple2[K, V]{I1: m.Keys[j].(K), I2: Build(s.Kids[0], m.Kids[j])}
+		items[i] = fp.Tuple2[K, V]{I1: m.Keys[j].(K), I2: c.Build(s.Kids[0], m.Kids[j])}
 	}
 	if m.Repr%4 >= 2 {
 		// different history: an extra key is inserted first and removed at the end
@@ -340,13 +539,13 @@ func buildFpMap[K comparable](h fp.Hashable[K], extra K, s *Shape, m *M) V {
 	return immutable.Map[K, V](h, items...)
 }
 
-func buildGoMap[K comparable](s *Shape, m *M) V {
+func buildGoMap[K comparable](c *Ctx, s *Shape, m *M) V {
 	if len(m.Kids) == 0 && m.Repr%2 == 0 {
 		return map[K]V(nil)
 	}
 	out := make(map[K]V, len(m.Kids))
 	for i := range m.Kids {
-		out[m.Keys[i].(K)] = Build(s.Kids[0], m.Kids[i])
+		out[m.Keys[i].(K)] = c.Build(s.Kids[0], m.Kids[i])
 	}
 	return out
 }
@@ -355,13 +554,50 @@ func buildGoMap[K comparable](s *Shape, m *M) V {
 const ExtraIntKey = 987654321
 const ExtraStrKey = "\x01extra"
 
-// Build makes a freshly allocated library value from the model.
-func Build(s *Shape, m *M) V {
+// Build makes a freshly allocated library value from the model (storage is shared only
+// between the parts of this one value).
+func Build(s *Shape, m *M) V { return NewCtx().Build(s, m) }
+
+// Build makes a library value from the model; pinned parts are allocated once per Ctx.
+func (c *Ctx) Build(s *Shape, m *M) V {
+	if m.Cell != nil {
+		if v, ok := c.cells[m.Cell]; ok {
+			if !sameModel(m, c.from[m.Cell]) {
+				harnessBug("two models of one cell differ", s, m)
+			}
+			return v
+		}
+	}
+	v := c.build(s, m)
+	if m.Cell != nil {
+		if c.cells == nil {
+			c.cells, c.from = map[*Cell]V{}, map[*Cell]*M{}
+		}
+		c.cells[m.Cell], c.from[m.Cell] = v, m
+	}
+	return v
+}
+
+func (c *Ctx) build(s *Shape, m *M) V {
 	switch s.Kind {
 	case KLeaf:
 		return m.Leaf
 	case KBytes:
 		n := len(m.Str)
+		if a := m.Arena; a != nil {
+			b, ok := c.bytes[a]
+			if !ok {
+				b = []byte(a.Str)
+				if c.bytes == nil {
+					c.bytes = map[*Arena][]byte{}
+				}
+				c.bytes[a] = b
+			}
+			if m.Off < 0 || m.Off+n > len(a.Str) || a.Str[m.Off:m.Off+n] != m.Str {
+				harnessBug("pinned bytes differ from their arena", s, m)
+			}
+			return b[m.Off : m.Off+n]
+		}
 		switch {
 		case n == 0 && m.Repr%3 == 0:
 			return []byte(nil)
@@ -376,23 +612,22 @@ func Build(s *Shape, m *M) V {
 		copy(b, m.Str)
 		return b
 	case KTime:
-		sec, ns := m.Ns/1_000_000_000, m.Ns%1_000_000_000
-		return time.Unix(sec, ns).In(zones[m.Repr%len(zones)])
+		return buildTime(m)
 	case KSeq:
-		return fp.Seq[V](buildSlice(s, m))
+		return fp.Seq[V](c.buildSlice(s, m))
 	case KSlice:
-		return buildSlice(s, m)
+		return c.buildSlice(s, m)
 	case KOption:
 		if m.Nil {
 			return fp.None[V]()
 		}
-		return fp.Some[V](Build(s.Kids[0], m.Kids[0]))
+		return fp.Some[V](c.Build(s.Kids[0], m.Kids[0]))
 	case KPtr:
 		if m.Nil {
 			return (*V)(nil)
 		}
 		p := new(V)
-		*p = Build(s.Kids[0], m.Kids[0])
+		*p = c.Build(s.Kids[0], m.Kids[0])
 		return p
 	case KPtrLeaf:
 		switch s.Leaf {
@@ -419,88 +654,347 @@ func Build(s *Shape, m *M) V {
 	case KTuple:
 		vs := make([]V, len(s.Kids))
 		for i := range s.Kids {
-			vs[i] = Build(s.Kids[i], m.Kids[i])
+			vs[i] = c.Build(s.Kids[i], m.Kids[i])
 		}
 		return MkTuple(vs)
 	case KHList:
 		var t V = hlist.Empty()
 		for i := len(s.Kids) - 1; i >= 0; i-- {
-			t = hlist.Concat[V, V](Build(s.Kids[i], m.Kids[i]), t)
+			t = hlist.Concat[V, V](c.Build(s.Kids[i], m.Kids[i]), t)
 		}
 		return t
 	case KGoMap:
 		if s.Leaf == "int" {
-			return buildGoMap[int](s, m)
+			return buildGoMap[int](c, s, m)
 		}
-		return buildGoMap[string](s, m)
+		return buildGoMap[string](c, s, m)
 	case KFpMap:
 		if s.Leaf == "int" {
-			return buildFpMap[int](intKeyHasher, ExtraIntKey, s, m)
+			return buildFpMap[int](c, intKeyHasher, ExtraIntKey, s, m)
 		}
-		return buildFpMap[string](strKeyHasher, ExtraStrKey, s, m)
+		return buildFpMap[string](c, strKeyHasher, ExtraStrKey, s, m)
 	}
 	panic("dyn: bad shape")
 }
 
 // ---- generation -----------------------------------------------------------------------
 
-var timeVals = []int64{0, 1, -1, 1_000_000_000, 1_700_000_000_123_456_789, 1_700_000_000_123_456_790, -62_000_000_000_000_000, 86_400_000_000_000}
+// Inst is an instant: seconds since the Unix epoch and nanoseconds within the second.
+type Inst struct{ Sec, Ns int64 }
+
+// unixDays: days from 1970-01-01 to the given proleptic Gregorian date (any year).
+func unixDays(y int64, m, d int) int64 {
+	if m <= 2 {
+		y--
+	}
+	era := y / 400
+	if y < 0 && y%400 != 0 {
+		era--
+	}
+	yoe := y - era*400
+	mp := int64((m + 9) % 12)
+	doy := (153*mp+2)/5 + int64(d) - 1
+	doe := yoe*365 + yoe/4 - yoe/100 + doy
+	return era*146097 + doe - 719468
+}
+
+// Int64 nanoseconds since the epoch (time.Time.UnixNano, time.Duration) cover only
+// 1677-09-21T00:12:43.145224192Z .. 2262-04-11T23:47:16.854775807Z.
+var nanoMin, nanoMax = Inst{-9223372037, 145224192}, Inst{9223372036, 854775807}
+
+// OutsideInt64Nanos: the instant has no int64 UnixNano.
+func OutsideInt64Nanos(sec, ns int64) bool {
+	return sec < nanoMin.Sec || (sec == nanoMin.Sec && ns < nanoMin.Ns) || sec > nanoMax.Sec || (sec == nanoMax.Sec && ns > nanoMax.Ns)
+}
+
+// timeVals spans what a time.Time can hold and eq.Time / ord.Time accept: negative and
+// five-digit years, the zero Time, both ends of the int64-nanosecond window (and of the
+// int32 / uint32 second counters, and of the 1885..2157 range of times with a monotonic
+// reading) to the nanosecond, pre-1970 instants with a fraction, sub-second neighbours.
+var timeVals = func() []Inst {
+	var out []Inst
+	at := func(y int64, mo, d, h, mi, sec int, ns int64) {
+		in := Inst{unixDays(y, mo, d)*86400 + int64(h*3600+mi*60+sec), ns}
+		if chk := time.Date(int(y), time.Month(mo), d, h, mi, sec, int(ns), time.UTC); chk.Unix() != in.Sec || int64(chk.Nanosecond()) != in.Ns {
+			panic(fmt.Sprintf("dyn: HARNESS BUG: unixDays(%d-%d-%d) gives %d, time.Date %d", y, mo, d, in.Sec, chk.Unix()))
+		}
+		out = append(out, in)
+	}
+	at(-1000, 1, 1, 0, 0, 0, 0)
+	at(0, 1, 1, 0, 0, 0, 0)
+	at(0, 12, 31, 23, 59, 59, 999_999_999)
+	at(1, 1, 1, 0, 0, 0, 0) // time.Time{}
+	at(1, 1, 1, 0, 0, 0, 0)
+	at(1, 1, 1, 0, 0, 0, 1)
+	at(1066, 10, 14, 9, 0, 0, 0)
+	at(1492, 10, 12, 2, 0, 0, 500_000_000)
+	at(1600, 2, 29, 12, 0, 0, 0)
+	at(1677, 9, 20, 0, 0, 0, 0)
+	out = append(out, Inst{nanoMin.Sec, nanoMin.Ns - 1}, nanoMin, Inst{nanoMin.Sec, nanoMin.Ns + 1})
+	at(1677, 9, 22, 0, 0, 0, 0)
+	at(1678, 1, 1, 0, 0, 0, 0)
+	at(1884, 12, 31, 23, 59, 59, 999_999_999)
+	at(1885, 1, 1, 0, 0, 0, 0)
+	at(1900, 1, 1, 0, 0, 0, 0)
+	out = append(out, Inst{-62_000_000, 0}, Inst{-2, 999_999_999}, Inst{-1, 0}, Inst{-1, 1}, Inst{-1, 999_999_999}, // pre-1970 with fractions
+		Inst{0, 0}, Inst{0, 0}, Inst{0, 1}, Inst{0, 999_999_999}, Inst{1, 0}, Inst{86_400, 0}, Inst{1_000_000_000, 0},
+		Inst{1_700_000_000, 123_456_789}, Inst{1_700_000_000, 123_456_790}, Inst{1_700_000_000, 123_457_789}, Inst{1_700_000_001, 123_456_789},
+		Inst{1<<31 - 1, 0}, Inst{1 << 31, 0}, Inst{1<<32 - 1, 999_999_999}, Inst{1 << 32, 0},
+		Inst{1<<33 - secs1885to1970 - 1, 0}, Inst{1<<33 - secs1885to1970, 0},
+		Inst{nanoMax.Sec, nanoMax.Ns - 1}, nanoMax, Inst{nanoMax.Sec, nanoMax.Ns + 1})
+	at(2262, 4, 12, 0, 0, 0, 0)
+	at(2263, 1, 1, 0, 0, 0, 0)
+	at(2500, 6, 15, 12, 30, 0, 0)
+	at(9999, 12, 31, 23, 59, 59, 999_999_999)
+	at(10000, 1, 1, 0, 0, 0, 0)
+	at(30000, 1, 1, 0, 0, 0, 0)
+	return out
+}()
+
+var intKeys = []int{-1, 0, 1, 2, 3, math.MinInt, math.MaxInt}
+var strKeys = []string{"", "a", "b", "A", "ab", "a\x00", "\xff"}
 
 func genKey(r *rand.Rand, kind string) any {
 	if kind == "int" {
-		return r.IntN(5) - 1
+		return intKeys[r.IntN(len(intKeys))]
 	}
-	return []string{"", "a", "b", "A", "ab"}[r.IntN(5)]
+	return strKeys[r.IntN(len(strKeys))]
 }
 
 // GenValue draws a random model of shape s.
-func GenValue(r *rand.Rand, s *Shape) *M {
-	m := &M{Repr: r.IntN(12)}
+func GenValue(r *rand.Rand, s *Shape) *M { return genValue(r, s, false, 0) }
+
+// genValue: rich = no None / nil / empty container anywhere, so that every component that can
+// have storage has some.
+func genValue(r *rand.Rand, s *Shape, rich bool, depth int) *M {
+	m := &M{Repr: r.IntN(ReprRange)}
 	switch s.Kind {
 	case KLeaf:
 		m.Leaf = Leaves[s.Leaf].Gen(r)
 	case KBytes:
 		m.Str = genString(r)
+		for t := 0; rich && len(m.Str) < 2; t++ {
+			if m.Str = genString(r); t > 20 {
+				m.Str = "abc"
+			}
+		}
 	case KTime:
-		m.Ns = timeVals[r.IntN(len(timeVals))]
+		in := timeVals[r.IntN(len(timeVals))]
+		m.Sec, m.Ns = in.Sec, in.Ns
+		if r.IntN(6) == 0 {
+			m.Sec += int64(r.IntN(3)) - 1
+		}
 	case KSeq, KSlice:
-		n := []int{0, 0, 1, 1, 2, 2, 3, 4, 6}[r.IntN(9)]
+		n := []int{0, 0, 1, 1, 2, 2, 3, 4, 6, 0, 1, 2, 3, 9, 17}[r.IntN(15)]
+		if n > 6 && (depth > 1 || len(s.Kids[0].Kids) > 0) {
+			n = 5 // long sequences (past 8 and 16 elements) only of flat elements near the root
+		}
+		if rich {
+			n = 2 + r.IntN(2)
+			if depth == 0 {
+				n += r.IntN(2)
+			}
+		}
 		for i := 0; i < n; i++ {
-			m.Kids = append(m.Kids, GenValue(r, s.Kids[0]))
+			m.Kids = append(m.Kids, genValue(r, s.Kids[0], rich, depth+1))
 		}
 	case KOption:
-		if r.IntN(3) == 0 {
+		if !rich && r.IntN(3) == 0 {
 			m.Nil = true
 		} else {
-			m.Kids = []*M{GenValue(r, s.Kids[0])}
+			m.Kids = []*M{genValue(r, s.Kids[0], rich, depth+1)}
 		}
 	case KPtr:
-		if r.IntN(4) == 0 {
+		if !rich && r.IntN(4) == 0 {
 			m.Nil = true
 		} else {
-			m.Kids = []*M{GenValue(r, s.Kids[0])}
+			m.Kids = []*M{genValue(r, s.Kids[0], rich, depth+1)}
 		}
 	case KPtrLeaf:
-		if r.IntN(4) == 0 {
+		if !rich && r.IntN(4) == 0 {
 			m.Nil = true
 		} else {
 			m.Leaf = Leaves[s.Leaf].Gen(r)
 		}
 	case KTuple, KHList:
 		for _, k := range s.Kids {
-			m.Kids = append(m.Kids, GenValue(r, k))
+			m.Kids = append(m.Kids, genValue(r, k, rich, depth+1))
 		}
 	case KGoMap, KFpMap:
 		n := r.IntN(4)
+		if rich {
+			n = 1 + r.IntN(3)
+		}
 		for i := 0; i < n; i++ {
 			k := genKey(r, s.Leaf)
 			if m.keyIndex(k) < 0 {
 				m.Keys = append(m.Keys, k)
-				m.Kids = append(m.Kids, GenValue(r, s.Kids[0]))
+				m.Kids = append(m.Kids, genValue(r, s.Kids[0], rich, depth+1))
 			}
 		}
 	}
 	return m
+}
+
+// ---- shared storage -------------------------------------------------------------------
+
+// HasStorage: values of the shape contain slices, byte slices, pointers or maps.
+func HasStorage(s *Shape) bool {
+	switch s.Kind {
+	case KBytes, KSeq, KSlice, KPtr, KPtrLeaf, KGoMap, KFpMap:
+		return true
+	}
+	for _, k := range s.Kids {
+		if HasStorage(k) {
+			return true
+		}
+	}
+	return false
+}
+
+// HasKind: the shape contains a node of the given kind.
+func HasKind(s *Shape, kind Kind) bool {
+	if s.Kind == kind {
+		return true
+	}
+	for _, k := range s.Kids {
+		if HasKind(k, kind) {
+			return true
+		}
+	}
+	return false
+}
+
+// pin gives every non-empty sequence / byte slice of m a backing array and every non-nil
+// pointer and every map a cell (in place: the value m denotes does not change). The backing
+// array of a sequence with the elements E is  E ++ E ++ [one more element]  so that there is
+// room for longer windows and for the same content at another offset.
+func pin(r *rand.Rand, s *Shape, m *M) {
+	switch s.Kind {
+	case KBytes:
+		if m.Arena == nil && len(m.Str) > 0 {
+			m.Arena, m.Off = &Arena{ID: r.Uint32() & 0xffff, Str: m.Str + m.Str + "q"}, 0
+		}
+	case KSeq, KSlice:
+		if n := len(m.Kids); m.Arena == nil && n > 0 {
+			el := make([]*M, 0, 2*n+1)
+			el = append(append(el, m.Kids...), m.Kids...)
+			el = append(el, GenValue(r, s.Kids[0]))
+			m.Arena, m.Off = &Arena{ID: r.Uint32() & 0xffff, Elems: el}, 0
+		}
+	case KPtr, KPtrLeaf:
+		if m.Cell == nil && !m.Nil {
+			m.Cell = &Cell{r.Uint32() & 0xffff}
+		}
+	case KGoMap, KFpMap:
+		if m.Cell == nil {
+			m.Cell = &Cell{r.Uint32() & 0xffff}
+		}
+	}
+	for i, k := range m.Kids {
+		pin(r, kidShape(s, i), k)
+	}
+}
+
+// HasPins: some part of m has a storage identity.
+func HasPins(m *M) bool {
+	if m.Arena != nil || m.Cell != nil {
+		return true
+	}
+	for _, k := range m.Kids {
+		if HasPins(k) {
+			return true
+		}
+	}
+	return false
+}
+
+type aliasSite struct {
+	path []int
+	s    *Shape
+	m    *M
+}
+
+func aliasSites(s *Shape, m *M, path []int, out *[]aliasSite) {
+	if m.Arena != nil {
+		*out = append(*out, aliasSite{append([]int(nil), path...), s, m})
+	}
+	for i, k := range m.Kids {
+		aliasSites(kidShape(s, i), k, append(path, i), out)
+	}
+}
+
+// AliasModes are the windows AliasVariant can cut out of the backing array of one sequence:
+//
+//	prefix  same start, shorter (sometimes empty)
+//	extend  same start, longer
+//	shift   the same content at another offset of the array
+//	window  another start inside the array, overlapping the original
+var AliasModes = []string{"prefix", "extend", "shift", "window"}
+
+// AliasVariant returns a value that shares all of its storage with the pinned value m - the
+// same pointers, the same maps, the same backing arrays - except that one sequence / byte
+// slice somewhere inside it is another window of the same backing array; the containers on
+// the way to that sequence are freshly allocated. nil if m has no pinned sequence.
+func AliasVariant(r *rand.Rand, s *Shape, m *M, mode string) *M {
+	var sites []aliasSite
+	aliasSites(s, m, nil, &sites)
+	if len(sites) == 0 {
+		return nil
+	}
+	st := sites[r.IntN(len(sites))]
+	v := *st.m
+	v.Cell = nil
+	n, total := len(st.m.Kids), len(st.m.Arena.Elems)
+	if st.s.Kind == KBytes {
+		n, total = len(st.m.Str), len(st.m.Arena.Str)
+	}
+	off, ln := st.m.Off, n
+	switch mode {
+	case "prefix":
+		ln = 0
+		if n >= 2 && r.IntN(6) != 0 {
+			ln = 1 + r.IntN(n-1)
+		}
+	case "extend":
+		ln = n + 1 + r.IntN(n)
+	case "shift":
+		off += n
+	case "window":
+		off++
+		if r.IntN(3) == 0 {
+			ln = n - 1 + r.IntN(3)
+		}
+	}
+	if off+ln > total {
+		ln = total - off
+	}
+	v.Off = off
+	if st.s.Kind == KBytes {
+		v.Str = st.m.Arena.Str[off : off+ln]
+	} else {
+		v.Kids = st.m.Arena.Elems[off : off+ln : off+ln]
+	}
+	return replaceAt(m, st.path, &v)
+}
+
+// replaceAt copies the path to a node (fresh, unpinned containers) and shares everything else.
+func replaceAt(m *M, path []int, nv *M) *M {
+	if len(path) == 0 {
+		return nv
+	}
+	c := *m
+	c.unpin()
+	c.Kids = append([]*M(nil), m.Kids...)
+	c.Kids[path[0]] = replaceAt(m.Kids[path[0]], path[1:], nv)
+	return &c
+}
+
+// SameStorage is another model of the very same library value (for a slice, pointer or map
+// root: the identical object; for a tuple / option root: a copy whose parts are identical).
+func SameStorage(m *M) *M {
+	c := *m
+	return &c
 }
 
 func (m *M) keyIndex(k any) int {
@@ -517,9 +1011,10 @@ func (m *M) keyIndex(k any) int {
 // are re-allocated by Build anyway.
 func Rerepr(r *rand.Rand, s *Shape, m *M) *M {
 	c := *m
-	c.Repr = r.IntN(12)
+	c.unpin() // a copy in storage of its own
+	c.Repr = r.IntN(ReprRange)
 	if c.Repr == m.Repr {
-		c.Repr = (c.Repr + 1 + r.IntN(5)) % 12
+		c.Repr = (c.Repr + 1 + r.IntN(5)) % ReprRange
 	}
 	if (s.Kind == KLeaf || s.Kind == KPtrLeaf) && c.Leaf != nil {
 		switch x := c.Leaf.(type) {
@@ -564,7 +1059,18 @@ func Mutate(r *rand.Rand, s *Shape, m *M, pos int) *M {
 	return nil
 }
 
+// mutateIn changes m in place; every node that was changed or contains a change loses its pins
+// (it is built in fresh storage), everything off that path keeps them, so a mutant of a pinned
+// value shares the untouched parts with it.
 func mutateIn(r *rand.Rand, s *Shape, m *M, pos int) bool {
+	if mutateNode(r, s, m, pos) {
+		m.unpin()
+		return true
+	}
+	return false
+}
+
+func mutateNode(r *rand.Rand, s *Shape, m *M, pos int) bool {
 	switch s.Kind {
 	case KLeaf:
 		m.Leaf = Leaves[s.Leaf].Mut(r, m.Leaf)
@@ -573,10 +1079,15 @@ func mutateIn(r *rand.Rand, s *Shape, m *M, pos int) bool {
 		m.Str = mutString(r, m.Str)
 		return true
 	case KTime:
-		if r.IntN(2) == 0 {
-			m.Ns++
-		} else {
-			m.Ns -= 3_600_000_000_000
+		switch r.IntN(3) {
+		case 0:
+			if m.Ns++; m.Ns == 1_000_000_000 {
+				m.Sec, m.Ns = m.Sec+1, 0
+			}
+		case 1:
+			m.Sec -= 3600
+		default:
+			m.Sec++
 		}
 		return true
 	case KSeq, KSlice:
@@ -696,7 +1207,7 @@ func NatEq(s *Shape, a, b *M) bool {
 	case KBytes:
 		return a.Str == b.Str
 	case KTime:
-		return a.Ns == b.Ns
+		return a.Sec == b.Sec && a.Ns == b.Ns
 	case KPtrLeaf:
 		if a.Nil || b.Nil {
 			return a.Nil && b.Nil
@@ -741,8 +1252,19 @@ func ReprDiff(s *Shape, a, b *M) bool {
 	return found
 }
 
+// capClass names how Build allocates a sequence / byte slice.
+func capClass(m *M, n int) int {
+	switch {
+	case m.Arena != nil:
+		return 10 // a window of a longer array
+	case n == 0:
+		return m.Repr % 3
+	}
+	return 3 + m.Repr%2
+}
+
 // ReprDiffs calls visit with the class of every representation difference between two
-// NatEq-equal models.
+// NatEq-equal models. Parts that are the same object (same cell, same window) have none.
 func ReprDiffs(s *Shape, a, b *M, visit func(class string)) {
 	switch s.Kind {
 	case KLeaf:
@@ -750,26 +1272,36 @@ func ReprDiffs(s *Shape, a, b *M, visit func(class string)) {
 			visit("float_zero_sign")
 		}
 	case KBytes:
-		if len(a.Str) == 0 {
-			if a.Repr%3 != b.Repr%3 {
+		switch {
+		case a.Arena != nil && a.Arena == b.Arena:
+			if a.Off != b.Off {
+				visit("bytes_same_array_other_offset")
+			}
+		case len(a.Str) == 0:
+			if capClass(a, 0) != capClass(b, 0) {
 				visit("bytes_nil_vs_empty")
 			}
-		} else if a.Repr%2 != b.Repr%2 {
+		case capClass(a, 1) != capClass(b, 1):
 			visit("bytes_capacity")
 		}
 	case KTime:
 		if a.Repr%len(zones) != b.Repr%len(zones) {
 			visit("time_zone")
 		}
+		if ma, mb := TimeMono(a), TimeMono(b); ma != mb {
+			visit("time_monotonic_vs_wall")
+		} else if ma {
+			visit("time_both_monotonic")
+		}
 	case KPtrLeaf:
-		if !a.Nil && !b.Nil {
+		if !a.Nil && !b.Nil && (a.Cell == nil || a.Cell != b.Cell) {
 			visit("pointer")
 			if bits := Leaves[s.Leaf].Bits; bits != nil && bits(a.Leaf) != bits(b.Leaf) {
 				visit("float_zero_sign")
 			}
 		}
 	case KPtr:
-		if !a.Nil && !b.Nil {
+		if !a.Nil && !b.Nil && (a.Cell == nil || a.Cell != b.Cell) {
 			visit("pointer")
 			ReprDiffs(s.Kids[0], a.Kids[0], b.Kids[0], visit)
 		}
@@ -779,11 +1311,17 @@ func ReprDiffs(s *Shape, a, b *M, visit func(class string)) {
 		}
 	case KSeq, KSlice, KTuple, KHList:
 		if s.Kind == KSeq || s.Kind == KSlice {
-			if len(a.Kids) == 0 {
-				if a.Repr%3 != b.Repr%3 {
+			switch {
+			case a.Arena != nil && a.Arena == b.Arena:
+				if a.Off != b.Off {
+					visit("slice_same_array_other_offset")
+				}
+				return // the same elements
+			case len(a.Kids) == 0:
+				if capClass(a, 0) != capClass(b, 0) {
 					visit("slice_nil_vs_empty")
 				}
-			} else if a.Repr%2 != b.Repr%2 {
+			case capClass(a, 1) != capClass(b, 1):
 				visit("slice_capacity")
 			}
 		}
@@ -793,6 +1331,9 @@ func ReprDiffs(s *Shape, a, b *M, visit func(class string)) {
 			}
 		}
 	case KGoMap, KFpMap:
+		if a.Cell != nil && a.Cell == b.Cell {
+			return
+		}
 		if len(a.Kids) == 0 {
 			if emptyMapClass(s, a) != emptyMapClass(s, b) {
 				visit("map_nil_vs_empty")
@@ -805,6 +1346,103 @@ func ReprDiffs(s *Shape, a, b *M, visit func(class string)) {
 				ReprDiffs(s.Kids[0], a.Kids[i], b.Kids[j], visit)
 			}
 		}
+	}
+}
+
+// AliasClasses visits, for two models built by one Ctx (equal or not), every pair of aligned
+// parts that share storage:
+//
+//	<kind>.identical                        the same window of the same array / the same pointer / the same map
+//	<kind>.same_start_different_length      both non-empty
+//	<kind>.same_start_one_empty
+//	<kind>.other_offset_equal_content
+//	<kind>.other_offset_different_content   (overlapping or adjacent windows)
+//
+// with <kind> one of seq, slice, bytes, pointer, gomap, fpmap.
+func AliasClasses(s *Shape, a, b *M, visit func(class string)) {
+	switch s.Kind {
+	case KBytes, KSeq, KSlice:
+		if a.Arena != nil && a.Arena == b.Arena {
+			kind := map[Kind]string{KBytes: "bytes", KSeq: "seq", KSlice: "slice"}[s.Kind]
+			la, lb := len(a.Kids), len(b.Kids)
+			if s.Kind == KBytes {
+				la, lb = len(a.Str), len(b.Str)
+			}
+			switch {
+			case a.Off == b.Off && la == lb:
+				visit(kind + ".identical")
+			case a.Off == b.Off && (la == 0 || lb == 0):
+				visit(kind + ".same_start_one_empty")
+			case a.Off == b.Off:
+				visit(kind + ".same_start_different_length")
+			case NatEq(s, a, b):
+				visit(kind + ".other_offset_equal_content")
+			default:
+				visit(kind + ".other_offset_different_content")
+			}
+			return
+		}
+		if s.Kind == KBytes {
+			return
+		}
+		for i := 0; i < len(a.Kids) && i < len(b.Kids); i++ {
+			AliasClasses(s.Kids[0], a.Kids[i], b.Kids[i], visit)
+		}
+	case KPtr, KPtrLeaf:
+		if a.Cell != nil && a.Cell == b.Cell {
+			visit("pointer.identical")
+			return
+		}
+		if s.Kind == KPtr && !a.Nil && !b.Nil {
+			AliasClasses(s.Kids[0], a.Kids[0], b.Kids[0], visit)
+		}
+	case KOption:
+		if !a.Nil && !b.Nil {
+			AliasClasses(s.Kids[0], a.Kids[0], b.Kids[0], visit)
+		}
+	case KTuple, KHList:
+		for i := range a.Kids {
+			AliasClasses(s.Kids[i], a.Kids[i], b.Kids[i], visit)
+		}
+	case KGoMap, KFpMap:
+		if a.Cell != nil && a.Cell == b.Cell {
+			visit(map[Kind]string{KGoMap: "gomap", KFpMap: "fpmap"}[s.Kind] + ".identical")
+			return
+		}
+		for i, k := range a.Keys {
+			if j := b.keyIndex(k); j >= 0 {
+				AliasClasses(s.Kids[0], a.Kids[i], b.Kids[j], visit)
+			}
+		}
+	}
+}
+
+// TimeClasses visits the class of every time.Time inside m.
+func TimeClasses(s *Shape, m *M, visit func(class string)) {
+	if s.Kind == KTime {
+		visit("values")
+		switch {
+		case OutsideInt64Nanos(m.Sec, m.Ns):
+			visit("values_outside_int64_nanoseconds")
+		case m.Sec < 0:
+			visit("values_before_1970")
+		}
+		if m.Sec < 0 && m.Ns != 0 {
+			visit("values_before_1970_with_fraction")
+		}
+		if m.Sec == timeVals[3].Sec && m.Ns == 0 && timeZone(m) == time.UTC {
+			visit("values_zero_time")
+		}
+		if m.Sec < unixDays(1, 1, 1)*86400 || m.Sec >= unixDays(10000, 1, 1)*86400 {
+			visit("values_year_below_1_or_above_9999")
+		}
+		if TimeMono(m) {
+			visit("values_with_monotonic_reading")
+		}
+		return
+	}
+	for i, k := range m.Kids {
+		TimeClasses(kidShape(s, i), k, visit)
 	}
 }
 
@@ -840,7 +1478,9 @@ func show(b *strings.Builder, s *Shape, m *M) {
 	case KLeaf:
 		b.WriteString(showLeaf(m.Leaf))
 	case KBytes:
-		if len(m.Str) == 0 {
+		if m.Arena != nil {
+			fmt.Fprintf(b, "[]byte(%q)@array%s[%d:%d]", m.Str, arenaName(m.Arena), m.Off, m.Off+len(m.Str))
+		} else if len(m.Str) == 0 {
 			b.WriteString([]string{"[]byte(nil)", "[]byte{}", "[]byte{}cap4"}[m.Repr%3])
 		} else {
 			fmt.Fprintf(b, "[]byte(%q)", m.Str)
@@ -849,12 +1489,16 @@ func show(b *strings.Builder, s *Shape, m *M) {
 			}
 		}
 	case KTime:
-		fmt.Fprintf(b, "time(%dns in %s)", m.Ns, zones[m.Repr%len(zones)])
+		fmt.Fprintf(b, "time(%s = unix %d.%09d in %s", time.Unix(m.Sec, m.Ns).UTC().Format("2006-01-02T15:04:05.999999999Z"), m.Sec, m.Ns, timeZone(m))
+		if TimeMono(m) {
+			b.WriteString(" +monotonic")
+		}
+		b.WriteString(")")
 	case KPtrLeaf:
 		if m.Nil {
 			b.WriteString("nil")
 		} else {
-			b.WriteString("&" + showLeaf(m.Leaf))
+			b.WriteString("&" + cellName(m.Cell) + showLeaf(m.Leaf))
 		}
 	case KOption:
 		if m.Nil {
@@ -868,11 +1512,11 @@ func show(b *strings.Builder, s *Shape, m *M) {
 		if m.Nil {
 			b.WriteString("nil")
 		} else {
-			b.WriteString("&")
+			b.WriteString("&" + cellName(m.Cell))
 			show(b, s.Kids[0], m.Kids[0])
 		}
 	case KSeq, KSlice:
-		if len(m.Kids) == 0 {
+		if len(m.Kids) == 0 && m.Arena == nil {
 			b.WriteString([]string{"nil[]", "[]", "[]cap4"}[m.Repr%3])
 			return
 		}
@@ -884,7 +1528,9 @@ func show(b *strings.Builder, s *Shape, m *M) {
 			show(b, s.Kids[0], k)
 		}
 		b.WriteString("]")
-		if m.Repr%2 == 1 {
+		if m.Arena != nil {
+			fmt.Fprintf(b, "@array%s[%d:%d]", arenaName(m.Arena), m.Off, m.Off+len(m.Kids))
+		} else if m.Repr%2 == 1 {
 			b.WriteString("+cap")
 		}
 	case KTuple, KHList:
@@ -900,6 +1546,7 @@ func show(b *strings.Builder, s *Shape, m *M) {
 		}
 		b.WriteString(")")
 	case KGoMap, KFpMap:
+		b.WriteString(cellName(m.Cell))
 		if len(m.Kids) == 0 {
 			if s.Kind == KGoMap {
 				b.WriteString([]string{"nilmap", "map{}"}[emptyMapClass(s, m)])
@@ -921,6 +1568,17 @@ func show(b *strings.Builder, s *Shape, m *M) {
 			fmt.Fprintf(b, "order%d", m.Repr%4)
 		}
 	}
+}
+
+// arenaName / cellName: the label of a storage identity (equal labels in one witness = the
+// same backing array / the same pointer or map).
+func arenaName(a *Arena) string { return fmt.Sprintf("#%04x", a.ID) }
+
+func cellName(c *Cell) string {
+	if c == nil {
+		return ""
+	}
+	return fmt.Sprintf("<shared#%04x>", c.ID)
 }
 
 // emptyMapClass names the representation Build chooses for an empty map.
@@ -947,21 +1605,27 @@ func btoi(b bool) int {
 type Entry struct {
 	M      *M
 	Parent int    // index of the entry it was derived from, -1 for base values
-	Rel    string // "base", "rerepr", "mutant", "prefix", "extend"
+	Rel    string // "base", "rerepr", "mutant", "prefix", "extend", "alias-<mode>" (AliasModes, "same")
 	Pos    int    // forced position of a "mutant" (-1: anywhere)
+	Shared bool   // some part of the value has a storage identity (see M.Arena / M.Cell)
 }
 
 // GenPool builds a pool of at least n values of shape s: a few random base values, for each a
 // copy in another representation, for the first base one single-position mutant per tuple
-// component / sequence element, prefixes and extensions for sequence roots, then random
-// mutants / re-representations / fresh values up to n.
+// component / sequence element, prefixes and extensions for sequence roots; if values of the
+// shape have storage (slices, byte slices, pointers, maps): one value without empty parts
+// whose storage is pinned, a copy of it in storage of its own, one AliasVariant per mode
+// (twice "prefix") plus a fresh copy of the first prefix variant, the identical value once
+// more, and a mutant that shares every untouched part; then random mutants /
+// re-representations / fresh values up to n (+ the number of storage-sharing entries).
+// The pool must be built by ONE Ctx for the sharing to become real.
 func GenPool(r *rand.Rand, s *Shape, n int) []Entry {
 	var pool []Entry
 	add := func(m *M, parent int, rel string, pos int) int {
 		if m == nil {
 			return -1
 		}
-		pool = append(pool, Entry{m, parent, rel, pos})
+		pool = append(pool, Entry{M: m, Parent: parent, Rel: rel, Pos: pos})
 		return len(pool) - 1
 	}
 	nb := 3 + r.IntN(2)
@@ -987,12 +1651,17 @@ func GenPool(r *rand.Rand, s *Shape, n int) []Entry {
 			if k < 6 {
 				add(Mutate(r, s, b0, k), 0, "mutant", k)
 			}
+			if k >= 6 && k < len(b0.Kids)-2 {
+				continue // long sequences: the short prefixes and the longest ones
+			}
 			p := b0.clone()
+			p.unpin()
 			p.Kids = p.Kids[:k]
-			p.Repr = r.IntN(12)
+			p.Repr = r.IntN(ReprRange)
 			add(p, 0, "prefix", k)
 		}
 		e := b0.clone()
+		e.unpin()
 		e.Kids = append(e.Kids, GenValue(r, s.Kids[0]))
 		add(e, 0, "extend", len(b0.Kids))
 	default:
@@ -1005,6 +1674,22 @@ func GenPool(r *rand.Rand, s *Shape, n int) []Entry {
 			add(Rerepr(r, s, pool[i].M), i, "rerepr", -1)
 		}
 	}
+	if HasStorage(s) {
+		before := len(pool)
+		rich := genValue(r, s, true, 0)
+		pin(r, s, rich)
+		a := add(rich, -1, "base", -1)
+		add(Rerepr(r, s, rich), a, "rerepr", -1)
+		for k, mode := range append([]string{"prefix"}, AliasModes...) {
+			v := add(AliasVariant(r, s, rich, mode), a, "alias-"+mode, -1)
+			if v >= 0 && k == 0 {
+				add(Rerepr(r, s, pool[v].M), v, "rerepr", -1) // copy ~ window, window !~ array: transitivity
+			}
+		}
+		add(SameStorage(rich), a, "alias-same", -1)
+		add(Mutate(r, s, rich, -1), a, "mutant", -1)
+		n += len(pool) - before
+	}
 	for guard := 0; len(pool) < n && guard < 4*n; guard++ {
 		p := r.IntN(len(pool))
 		switch r.IntN(5) {
@@ -1015,6 +1700,9 @@ func GenPool(r *rand.Rand, s *Shape, n int) []Entry {
 		default:
 			add(Mutate(r, s, pool[p].M, -1), p, "mutant", -1)
 		}
+	}
+	for i := range pool {
+		pool[i].Shared = HasPins(pool[i].M)
 	}
 	return pool
 }
